@@ -377,7 +377,7 @@ def make_machine(max_steps, collected, opts):
                 if v.dtype.kind == "c" and v.dtype.itemsize == 16:
                     sink["cls"] = "existing-same"
                 else:
-                    sink["lossy"] = bool(v.dtype.kind == "f" and v.size > 0 and np.isfinite(v).all() and np.abs(v).max() < 2**30 and data.draw(st.booleans()))
+                    sink["lossy"] = bool(self.w.vals[i].exact and v.dtype.kind == "f" and v.size > 0 and np.isfinite(v).all() and np.abs(v).max() < 2**30 and data.draw(st.booleans()))
             self._apply({"op": "store", "id": i, "sink": sink, "eager": data.draw(st.booleans()), "executor": data.draw(st.sampled_from(EXECS[:3])), "seed": data.draw(st.integers(0, 999))}, data)
 
         @precondition(lambda self: any(s["op"] == "store" for s in self.w.steps))
